@@ -8,6 +8,7 @@ import (
 	"fmt"
 	"os"
 	"os/exec"
+	"runtime"
 	"sort"
 	"strings"
 	"testing"
@@ -178,7 +179,9 @@ func Main(t *testing.T, c *Check) {
 				if netctl.Burst {
 					gmp = "GOMAXPROCS=4" // burst mode wants real overlap; the race detector judges
 				}
-				cmd.Env = append(os.Environ(), "VERIF_WORKER=1", gmp, "GORACE=halt_on_error=1 exitcode=66")
+				// randautoseed=0: the global math/rand source starts from the same
+				// seed in every worker (fewer replay divergences between processes)
+				cmd.Env = append(os.Environ(), "VERIF_WORKER=1", gmp, "GORACE=halt_on_error=1 exitcode=66", "GODEBUG=randautoseed=0")
 				if os.Getenv("VERIF_DEBUG") != "" {
 					cmd.Stderr = os.Stderr
 				}
@@ -296,6 +299,7 @@ func replay(t *testing.T, c *Check, by map[string]*netctl.Scenario, path string)
 	if sc == nil {
 		t.Fatalf("unknown scenario %q", a.Artefact.Scenario)
 	}
+	runtime.GOMAXPROCS(1) // as the exploring workers ran it
 	res := netctl.Run(t, sc, explore.Job{Scenario: sc.Name, Prefix: a.Artefact.Prefix, Labels: a.Artefact.Labels})
 	var lab []string
 	for _, pt := range res.Points {
